@@ -49,6 +49,15 @@ def check_history(texts, keep):
     return []
 
 
+def long_run_texts():
+    """runs far longer than any enumerated string: a constant, a letter run, blanks, and their neighbours"""
+    out = []
+    for n in (63, 64, 65, 66, 127, 128, 129, 300):
+        out += ["7" * n, "7" * n + ".5", "0." + "0" * n + "1", "x" * n, " " * n + "x", "7" * n + "x", "x" + "7" * n, "(" * n,
+                "s" * n + "gn", "7" * (n - 1) + " " + "7", ("7" * 10 + "+") * (n // 8)]
+    return out
+
+
 def _all_strings(maxlen):
     out = []
     for n in range(0, maxlen + 1):
@@ -164,6 +173,15 @@ def run(tier, seed):
     k = seed % len(tasks)
     tasks = tasks[k:] + tasks[:k]
     acc = merge_all(par.pmap(_work, tasks))
+    lr = Acc()
+    for text in long_run_texts():
+        for keep in (True, False):
+            lr.count("runs")
+            lr.count("long_run_cases")
+            for kind, detail in check_text(text, keep):
+                lr.violation(f"{kind}|long-run|{text[:12]!r}..x{len(text)}|padding={'kept' if keep else 'dropped'}",
+                             {"text": text, "keep": keep, "kind": kind, "long": True}, f"input of {len(text)} characters: {detail[:200]}")
+    acc.merge(lr)
     s1, s2 = _all_strings(1), _all_strings(2)
     if tier == "quick":
         ht = [(s2[i::16], s1) for i in range(16)] + [(s1, s2[i::16]) for i in range(16)]
@@ -197,5 +215,9 @@ def replay(case):
         b = [(t.type, t.value) for t in _tokenizer(False).tokenize(case["text"])]
         return [] if [p for p in a if p[0] != TOKEN_TYPES.Pad] == b else [(f"padding-modes-disagree|{case['text']!r}", "")]
     keep = case["keep"]
+    if case.get("long"):
+        text = case["text"]
+        return [(f"{k}|long-run|{text[:12]!r}..x{len(text)}|padding={'kept' if keep else 'dropped'}", d[:200])
+                for k, d in check_text(text, keep) if k == case["kind"]]
     return [(f"{k}|{case['text']!r}|padding={'kept' if keep else 'dropped'}", d) for k, d in check_text(case["text"], keep)
             if k == case["kind"]]
